@@ -362,7 +362,7 @@ func yieldList(fset *token.FileSet, info *types.Info, list []ast.Stmt, fe *fileE
 				}
 				if l != "" && !strings.Contains(l, "\n") {
 					fe.edits = append(fe.edits, edit{off(x.Pos()), off(x.End()),
-						fmt.Sprintf("{ zsimT := %s; simrt.Y(); %s = zsimT %s 1 }", l, l, op), 0})
+						fmt.Sprintf("{ zsimT := %s; %s; %s = zsimT %s 1 }", l, ywCall(info, x.X, l), l, op), 0})
 					rep.RMWSplits++
 				}
 			}
@@ -386,7 +386,7 @@ func yieldList(fset *token.FileSet, info *types.Info, list []ast.Stmt, fe *fileE
 				if x.Tok == token.SUB_ASSIGN {
 					op = "-"
 				}
-				fe.edits = append(fe.edits, edit{off(x.Pos()), off(x.Pos()), fmt.Sprintf("{ zsimT := %s; simrt.Y(); ", l), 0})
+				fe.edits = append(fe.edits, edit{off(x.Pos()), off(x.Pos()), fmt.Sprintf("{ zsimT := %s; %s; ", l, ywCall(info, x.Lhs[0], l)), 0})
 				fe.edits = append(fe.edits, edit{off(x.TokPos), off(x.TokPos) + 2, fmt.Sprintf("= zsimT %s (", op), 0})
 				fe.edits = append(fe.edits, edit{off(x.End()), off(x.End()), ") }", -10})
 				rep.RMWSplits++
@@ -413,7 +413,7 @@ func yieldList(fset *token.FileSet, info *types.Info, list []ast.Stmt, fe *fileE
 					break
 				}
 				// x.f = append(x.f, rest...) -> { zsimT := x.f; simrt.Y(); x.f = append(zsimT, rest...) }
-				fe.edits = append(fe.edits, edit{off(x.Pos()), off(x.Pos()), fmt.Sprintf("{ zsimT := %s; simrt.Y(); ", l), 0})
+				fe.edits = append(fe.edits, edit{off(x.Pos()), off(x.Pos()), fmt.Sprintf("{ zsimT := %s; %s; ", l, ywCall(info, x.Lhs[0], l)), 0})
 				fe.edits = append(fe.edits, edit{off(call.Args[0].Pos()), off(call.Args[0].End()), "zsimT", 0})
 				fe.edits = append(fe.edits, edit{off(x.End()), off(x.End()), " }", -10})
 				rep.RMWSplits++
@@ -449,6 +449,54 @@ func callFree(info *types.Info, e ast.Expr) bool {
 		return true
 	})
 	return ok
+}
+
+// ywCall is the window yield for the location e (source text l): with the
+// location's address when it has one.
+func ywCall(info *types.Info, e ast.Expr, l string) string {
+	if addressable(info, e) {
+		return "simrt.YW(&" + l + ")"
+	}
+	return "simrt.YW0()"
+}
+
+func addressable(info *types.Info, e ast.Expr) bool {
+	switch x := e.(type) {
+	case *ast.Ident:
+		_, ok := info.Uses[x].(*types.Var)
+		return ok
+	case *ast.ParenExpr:
+		return addressable(info, x.X)
+	case *ast.StarExpr:
+		return true
+	case *ast.SelectorExpr:
+		if sel, ok := info.Selections[x]; ok && sel.Kind() == types.FieldVal {
+			if _, isPtr := info.TypeOf(x.X).Underlying().(*types.Pointer); isPtr {
+				return true
+			}
+			return addressable(info, x.X)
+		}
+		// qualified identifier pkg.Var
+		if _, ok := info.Uses[x.Sel].(*types.Var); ok {
+			return true
+		}
+		return false
+	case *ast.IndexExpr:
+		t := info.TypeOf(x.X)
+		if t == nil {
+			return false
+		}
+		switch t.Underlying().(type) {
+		case *types.Slice:
+			return true
+		case *types.Pointer: // pointer to array
+			return true
+		case *types.Array:
+			return addressable(info, x.X)
+		}
+		return false
+	}
+	return false
 }
 
 func isMapIndex(info *types.Info, e ast.Expr) (*ast.IndexExpr, bool) {
